@@ -348,15 +348,18 @@ func (i *PostingsIterator) Empty() bool {
 }
 
 func (i *PostingsIterator) loadChunk(chunk int) error {
-	if i.includeFreqNorm {
-		err := i.freqNormReader.loadChunk(chunk)
+	// The location chunk is loaded first: callers take a chunk for loaded when
+	// the freq/norm reader holds data, so a failure in between must not leave
+	// the freq/norm reader on the new chunk with no location reader behind it.
+	if i.includeLocs {
+		err := i.locReader.loadChunk(chunk)
 		if err != nil {
 			return err
 		}
 	}
 
-	if i.includeLocs {
-		err := i.locReader.loadChunk(chunk)
+	if i.includeFreqNorm {
+		err := i.freqNormReader.loadChunk(chunk)
 		if err != nil {
 			return err
 		}
